@@ -10,11 +10,13 @@ case "$P" in
   *) git apply "$P" || { echo "apply failed"; exit 2; } ;;
 esac
 cd /verif
+mkdir -p .tmp/evsave; for c in "$@"; do cp -f evidence/$c.json .tmp/evsave/ 2>/dev/null; done
 for c in "$@"; do
   echo "=== $c on mutant $P"
   ./check "$c" 2>&1 | tail -4
   echo "exit=$?"
 done
+for c in "$@"; do cp -f .tmp/evsave/$c.json evidence/ 2>/dev/null; done
 cd /repo
 git revert --abort >/dev/null 2>&1
 git reset -q --hard HEAD
